@@ -5,6 +5,7 @@ CONSTANTS
   PipeCap = 1
   CtxAwareSend = TRUE
   Flood = TRUE
+  AuditMetrics = TRUE
   Http = TRUE
 INVARIANTS NonZeroOnFailure ErrorCancels
 PROPERTIES FailStop SignalStops CancelStopsA CancelStopsS CancelStopsP StaysReturned
